@@ -152,7 +152,8 @@ Definition annexf_ok (j : json) : bool := ok_ds j.
     validator agrees with the harness' (Rust) validator on the real output *)
 Definition check_case (c : jcase) : bool :=
   match c with
-  | CaseRT X d out back annexf _ =>
+  | CaseRT X d out back annexf _ conf =>
+      Bool.eqb (conf_dset X d) conf &&
       outcome_eqb json_eqb (ser X d) out &&
       match out with Ok j => Bool.eqb (annexf_ok j) annexf | _ => true end
   | CaseDe _ _ _ => true
